@@ -328,4 +328,50 @@ def img64 : Bytes :=
 
 example : (load {} { data := img64 } false).toOption.map (·.ok) = some true := by decide
 
+/-- a 208-byte ELF64/LSB image: header, the string table `\0.shstrtab\0` at offset 64, and two
+    section headers at offset 80 (the null section and the string table, `e_shstrndx = 1`) -/
+def img208 : Bytes := [
+   127, 69, 76, 70, 2, 1, 1, 0, 0, 0, 0, 0, 0, 0, 0, 0, 1, 0, 62, 0, 1, 0, 0, 0, 0, 0, 0, 0, 0, 0, 0, 0,
+   0, 0, 0, 0, 0, 0, 0, 0, 80, 0, 0, 0, 0, 0, 0, 0, 0, 0, 0, 0, 64, 0, 56, 0, 0, 0, 64, 0, 2, 0, 1, 0,
+   0, 46, 115, 104, 115, 116, 114, 116, 97, 98, 0, 0, 0, 0, 0, 0, 0, 0, 0, 0, 0, 0, 0, 0, 0, 0, 0, 0, 0, 0, 0, 0,
+   0, 0, 0, 0, 0, 0, 0, 0, 0, 0, 0, 0, 0, 0, 0, 0, 0, 0, 0, 0, 0, 0, 0, 0, 0, 0, 0, 0, 0, 0, 0, 0,
+   0, 0, 0, 0, 0, 0, 0, 0, 0, 0, 0, 0, 0, 0, 0, 0, 1, 0, 0, 0, 3, 0, 0, 0, 0, 0, 0, 0, 0, 0, 0, 0,
+   0, 0, 0, 0, 0, 0, 0, 0, 64, 0, 0, 0, 0, 0, 0, 0, 11, 0, 0, 0, 0, 0, 0, 0, 0, 0, 0, 0, 0, 0, 0, 0,
+   1, 0, 0, 0, 0, 0, 0, 0, 0, 0, 0, 0, 0, 0, 0, 0]
+
+/- eager load of `img208`: succeeds, requests exactly one buffer of 11+1 bytes, and the section
+    name went through the checked string lookup -/
+set_option maxRecDepth 100000 in
+example :
+    (load {} { data := img208 } false).toOption.map
+      (fun r => (r.ok, r.allocs, r.obj.secs.map (fun b => (b.name, b.data.map (·.length))))) =
+    some (true, [12], [([], none), ([46, 115, 104, 115, 116, 114, 116, 97, 98], some 12)]) := by decide
+
+/- the hypotheses of `load_alloc_bound` are met by it -/
+set_option maxRecDepth 100000 in
+example : ∀ a ∈ ((load {} { data := img208 } false).toOption.map (·.allocs)).getD [], a ≤ img208.length + 1 := by
+  decide
+
+/- lazy load, then an interleaving of data requests / frees with in- and out-of-range indices:
+    the freed string table is read again (one more 12-byte request) -/
+set_option maxRecDepth 100000 in
+example :
+    (load {} { data := img208 } true).toOption.map
+      (fun r => (r.allocs,
+        (requests r.obj [.secData 1, .secData 7, .secFree 1, .secData 1, .segData 0]).2,
+        (requests r.obj [.secData 1, .secData 7, .secFree 1]).1.secs.map (·.data.isSome))) =
+    some ([12], [12], [false, false]) := by decide
+
+/- the string reader on the loaded string table at indices 1, 5, 10 (the final NUL) and
+    2^32-1
+    (`toOption`: `some _` = returned, `none` would be a fault) -/
+set_option maxRecDepth 100000 in
+example :
+    (load {} { data := img208 } true).toOption.map
+      (fun r => r.obj.secs.map (fun b => [(getString b 1).toOption, (getString b 5).toOption, (getString b 10).toOption,
+        (getString b 4294967295).toOption])) =
+    some [[some none, some none, some none, some none],
+          [some (some [46, 115, 104, 115, 116, 114, 116, 97, 98]), some (some [116, 114, 116, 97, 98]),
+           some (some []), some none]] := by decide
+
 end ElfioVerif.C01
